@@ -48,6 +48,13 @@ Correspondence streams (model = lean/Drv/C20.lean over Model.Schedule):
            element by array index, or adding the missing calendar object and writing
            exceptionSchedule again); lockstep with the model through the failures, and from
            the repair on the full staleness oracle
+  faultfix configuration-FAULT-and-correction histories (oracle only): a running schedule is
+           given a configuration the object reports as faulty (Integer among Reals in the
+           weekly / exception schedule, Integer scheduleDefault, wildcard weekly time ->
+           reliability configurationError), minutes or hours later a valid configuration is
+           written (whole property, ONE element by index, in-place edit + same object); the run
+           goes on for 3..4 more days; nothing is demanded while faulty, from the correcting
+           write on the full staleness / re-arm oracle over all following days
   dst      (oracle only, no model: mktime/localtime outside UTC are not modelled) 1..3
            schedules per run in worker processes whose TZ is UTC, EST5EDT (US rules),
            CET-1CEST (EU rules) or AEST-10AEDT (southern hemisphere), run across a change-over
@@ -56,6 +63,9 @@ Correspondence streams (model = lean/Drv/C20.lean over Model.Schedule):
            (time.mktime of the full struct, tm_isdst=-1) and a second later, at local
            midnights, on a 15-minute grid 3 h either side of the change, at writes, against
            `ref_value` at the wall-clock reading time.localtime gives for that instant
+  All timer streams also reconfigure by EDITING the stored array / DailySchedule /
+  SpecialEvent / list objects in place and writing the very same object back
+  (`so.weeklySchedule = so.weeklySchedule`, WriteProperty(prop, stored object, direct=True)).
   All timer streams (run, multi, repair, dst) write whole properties AND by array index:
   weeklySchedule[1..7], exceptionSchedule[i], exceptionSchedule[0] (resize), through
   obj.WriteProperty(..., arrayIndex=i, direct=True) and through a WritePropertyRequest handed
@@ -185,10 +195,20 @@ def mk_entry(e):
     return CalendarEntry()
 
 
+def mk_val(v):
+    """a schedule value: a token is a Real; {"int": n} is an Integer — the WRONG datatype in a
+    schedule of Reals, which makes _check_reliability report configurationError"""
+    from bacpypes.primitivedata import Null, Real, Integer
+    if v is None:
+        return Null()
+    if isinstance(v, dict):
+        return Integer(v["int"])
+    return Real(float(v))
+
+
 def mk_tvs(tvs):
     from bacpypes.basetypes import TimeValue
-    from bacpypes.primitivedata import Null, Real
-    return [TimeValue(time=tuple(t), value=Null() if v is None else Real(float(v))) for t, v in tvs]
+    return [TimeValue(time=tuple(t), value=mk_val(v)) for t, v in tvs]
 
 
 def mk_weekly(weekly):
@@ -303,6 +323,38 @@ class Real_:
         if self.reset:
             self.vt.reset(0.0)
 
+    def edit_in_place(self, cur, new, how):
+        """reconfigure by EDITING the stored configuration objects (the array, its
+        DailySchedule / SpecialEvent elements, their lists) and then writing the very same
+        object back: `so.weeklySchedule = so.weeklySchedule` or
+        so.WriteProperty(prop, the stored object, direct=True)"""
+        so = self.so
+        if new["exc"] != cur["exc"]:
+            prop, arr = 'exceptionSchedule', so.exceptionSchedule
+            fresh = self.write(new)
+            if len(new["exc"]) == len(cur["exc"]) and how.get("deep"):
+                for i in range(len(new["exc"])):
+                    if new["exc"][i] != cur["exc"][i]:
+                        old_el, new_el = arr[i + 1], fresh[i + 1]
+                        old_el.period = new_el.period
+                        old_el.eventPriority = new_el.eventPriority
+                        old_el.listOfTimeValues[:] = new_el.listOfTimeValues
+            else:
+                arr.value[1:] = fresh.value[1:]
+                arr.value[0] = fresh.value[0]
+        else:
+            prop, arr = 'weeklySchedule', so.weeklySchedule
+            for i in range(7):
+                if new["weekly"][i] != cur["weekly"][i]:
+                    if how.get("deep"):
+                        arr[i + 1].daySchedule[:] = mk_tvs(new["weekly"][i])
+                    else:
+                        arr[i + 1].daySchedule = mk_tvs(new["weekly"][i])
+        if how.get("via") == "direct":
+            so.WriteProperty(prop, arr, direct=True)
+        else:
+            setattr(so, prop, arr)
+
     def service_write(self, prop, value, idx):
         """the WriteProperty service path: a WritePropertyRequest handed to the application"""
         from bacpypes.apdu import WritePropertyRequest, SimpleAckPDU
@@ -349,6 +401,9 @@ class Real_:
             else:
                 self.service_write(prop, value, idx)
             return
+        if how is not None and how["k"] == "inplace":
+            self.edit_in_place(cur, new, how)
+            return
         service = how is not None and how.get("path") == "service"
         if new["exc"] != cur["exc"]:
             so.exceptionSchedule = self.write(new)
@@ -356,7 +411,7 @@ class Real_:
             if service:
                 self.service_write('scheduleDefault', Real(float(new["def"])), None)
             else:
-                so.scheduleDefault = Real(float(new["def"]))
+                so.scheduleDefault = mk_val(new["def"])
         elif new["eff"] != cur["eff"]:
             v = DateRange(startDate=tuple(new["eff"][0]), endDate=tuple(new["eff"][1]))
             if service:
@@ -1413,6 +1468,12 @@ def gen_changes(rng, cfg, focus, ndays, start, until, dd, n=None):
             new["eff"] = rng.choice([other["eff"], [list(OPEN), list(OPEN)], [dd(rng.randrange(0, ndays)), list(OPEN)],
                                      [list(OPEN), dd(rng.randrange(0, ndays))]])
             how = {"k": "whole", "path": path}
+        prop = next((k for k in ("exc", "def", "eff", "weekly") if new[k] != cur[k]), "weekly")
+        if rng.random() < 0.35 and (
+                (prop == "exc" and cur["exc"] is not None and new["exc"] is not None) or
+                (prop == "weekly" and cur["weekly"] and new["weekly"] and len(cur["weekly"]) == 7 == len(new["weekly"]))):
+            # the same change made by editing the stored objects and writing the same object back
+            how = {"k": "inplace", "deep": rng.random() < 0.5, "via": rng.choice(["assign", "direct"])}
         changes.append([tc, new]); hows.append(how)
         cur = new
     return changes, hows
@@ -1501,6 +1562,69 @@ def gen_repair_run(rng):
     return case
 
 
+def gen_fault_run(rng):
+    """configuration-FAULT-and-correction history: a running schedule is given a configuration the
+    object itself reports as faulty (reliability = configurationError: an Integer among Reals in
+    the weekly or the exception schedule, an Integer scheduleDefault, a wildcard in a weekly
+    time), minutes or hours later a valid configuration is written; the run goes on for three
+    to four more days.  Oracle only (reliability is not modelled): nothing is demanded while the
+    configuration is faulty, from the correcting write on the full staleness / re-arm oracle"""
+    case = gen_run(rng, True)
+    cfg = case["cfg"]
+    if rng.random() < 0.8:
+        cfg["eff"] = [list(OPEN), list(OPEN)]
+    if cfg["weekly"] is None:
+        cfg["weekly"] = [gen_tvs(rng, rng.randrange(1, 5), 100 + 10 * i) for i in range(7)]
+    start = case["start"]
+    day_us = 86400 * 1000000
+    t1 = start + rng.randrange(60, 20 * 3600) * 1000000 + 500000
+    t2 = t1 + (rng.randrange(60, 900) if rng.random() < 0.6 else rng.randrange(900, 12 * 3600)) * 1000000
+    case["until"] = t2 + rng.randrange(3 * 86400, 4 * 86400) * 1000000
+    case["fuel"] = 600
+    kind = rng.choice(["int-weekly", "int-weekly", "int-exc", "int-default", "wild-weekly"])
+    if kind == "int-exc" and not cfg["exc"]:
+        kind = "int-weekly"
+    bad = json.loads(json.dumps(cfg))
+    fixed = json.loads(json.dumps(cfg))
+    how = None
+    today = t2 // day_us % 7
+    if kind in ("int-weekly", "wild-weekly"):
+        i = rng.choice([today, rng.randrange(7)])
+        lst = bad["weekly"][i] or [[[12, 0, 0, 0], 199]]
+        j = rng.randrange(len(lst))
+        lst = json.loads(json.dumps(lst))
+        if kind == "int-weekly":
+            lst[j][1] = {"int": rng.randrange(1, 9)}
+        else:
+            lst[j][0][rng.randrange(1, 4)] = 255
+        bad["weekly"][i] = lst
+        # the correction also changes what the schedule says (so that it matters at once)
+        fixed["weekly"][i] = gen_tvs(rng, rng.randrange(1, 5), 100 + 10 * i + 5)
+        r = rng.random()
+        how = None if r < 0.35 else {"k": "wk", "i": i + 1, "path": rng.choice(["direct", "service"])} if r < 0.7 \
+            else {"k": "inplace", "deep": rng.random() < 0.5, "via": rng.choice(["assign", "direct"])}
+        if how is None:
+            fixed["weekly"][(i + 1) % 7] = gen_tvs(rng, rng.randrange(1, 5), 100 + 10 * ((i + 1) % 7) + 5)
+    elif kind == "int-exc":
+        i = rng.randrange(len(bad["exc"]))
+        tv = bad["exc"][i]["tv"] or [[[12, 0, 0, 0], 1990]]
+        tv = json.loads(json.dumps(tv))
+        tv[rng.randrange(len(tv))][1] = {"int": rng.randrange(1, 9)}
+        bad["exc"][i]["tv"] = tv
+        fixed["exc"][i] = {"p": {"k": "entry", "e": {"k": "date", "p": list(OPEN)}},
+                           "tv": gen_tvs(rng, rng.randrange(1, 4), 1000 + 10 * i + 5), "prio": rng.choice([1, 5, 16])}
+        r = rng.random()
+        how = None if r < 0.4 else {"k": "exc", "i": i + 1, "path": rng.choice(["direct", "service"])} if r < 0.7 \
+            else {"k": "inplace", "deep": rng.random() < 0.5, "via": rng.choice(["assign", "direct"])}
+    else:
+        bad["def"] = {"int": rng.randrange(1, 9)}
+        fixed["def"] = rng.choice([d for d in (0, 1, 2, 3) if d != cfg["def"]])
+    case["changes"], case["hows"] = [[t1, bad], [t2, fixed]], [None, how]
+    case["repair_at"] = t2
+    case["kind"] = kind
+    return case
+
+
 def gen_bad_run(rng):
     """timer run of a malformed configuration: correspondence of the error paths only"""
     day0 = rng.randrange(25567 + 365, 92000)
@@ -1511,10 +1635,19 @@ def gen_bad_run(rng):
             "fuel": 400, "changes": [], "kind": kind}
 
 
-def run_runs(ctx, rng, n, label="run", cases=None, bad=False, repair=False):
+def run_runs(ctx, rng, n, label="run", cases=None, bad=False, repair=False, fault=False):
     if cases is None:
-        cases = [gen_bad_run(rng) if bad else gen_repair_run(rng) if repair else fix_chain(gen_run(rng, ctx.quick))
-                 for _ in range(n)]
+        cases = [gen_bad_run(rng) if bad else gen_repair_run(rng) if repair else gen_fault_run(rng) if fault
+                 else fix_chain(gen_run(rng, ctx.quick)) for _ in range(n)]
+    if cases and str(cases[0].get("kind", "")).startswith(("int-", "wild-")):
+        # oracle only: the object's reliability handling is not modelled
+        for c in cases:
+            a, flt = run_real(c)
+            oracle_run(ctx, c, a["steps"], flt)
+            ctx.count(label, (c["kind"], (c["hows"][-1] or {}).get("k"), c["changes"][1][0] - c["changes"][0][0] > 900 * 1000000),
+                      n=len(a["steps"]))
+        ctx.sample({"stream": label, "kind": cases[0]["kind"], "start": cases[0]["start"]})
+        return
     impl = []
     for c in cases:
         a, fault = run_real(c)
@@ -1987,6 +2120,8 @@ def shard_eval(ctx, spec):
         run_multi(ctx, rng, n)
     elif kind == "repair":
         run_runs(ctx, rng, n, label="repair", repair=True)
+    elif kind == "faultfix":
+        run_runs(ctx, rng, n, label="faultfix", fault=True)
     else:
         run_runs(ctx, rng, n)
 
@@ -2005,6 +2140,7 @@ def run(ctx):
         run_runs(ctx, rng, 60)
         run_runs(ctx, rng, 40, label="runbad", bad=True)
         run_runs(ctx, ctx.sub_rng("c20-repair"), 50, label="repair", repair=True)
+        run_runs(ctx, ctx.sub_rng("c20-faultfix"), 50, label="faultfix", fault=True)
         run_multi(ctx, ctx.sub_rng("c20-multi"), 160)
         core.run_shards(ctx, "harness.c20", "shard_dst", [(z, 0, 30) for z in ZONES])
     else:
@@ -2014,7 +2150,8 @@ def run(ctx):
         core.run_shards(ctx, "harness.c20", "shard_years", [years[i::32] for i in range(32)])
         specs = [("evalday", i, 150) for i in range(32)] + [("evalbad", i, 400) for i in range(8)] + \
                 [("run", i, 200) for i in range(32)] + [("runbad", i, 300) for i in range(8)] + \
-                [("multi", i, 120) for i in range(32)] + [("repair", i, 200) for i in range(8)]
+                [("multi", i, 120) for i in range(32)] + [("repair", i, 200) for i in range(8)] + \
+                [("faultfix", i, 150) for i in range(8)]
         core.run_shards(ctx, "harness.c20", "shard_dst", [(z, i, 150) for i in range(4) for z in ZONES])
         core.run_shards(ctx, "harness.c20", "shard_eval", specs)
         ctx.exhaustive = True
